@@ -175,7 +175,6 @@ func Seq2[M ~map[K]V, K comparable, V any](m M, site string) iter.Seq2[K, V] {
 	}
 }
 
-
 // Permutations returns all permutations of 0..n-1 (n small).
 func Permutations(n int) [][]int {
 	var out [][]int
